@@ -335,6 +335,9 @@ func (c *Ctx) rulesR3queue() {
 			}
 			nw++
 			k := funcKey(topFunc(w.Fn))
+			if hk, ok := c.hostKeyIn(w.Fn, func(x string) bool { return allowed[x] }); ok {
+				k = hk
+			}
 			c.check(allowed[k], "C04.clone", k+" may assign Mutation.QueueTick", w.Instr.Pos(), "queue ticks are handed out by the queue only; this function copies or invents one")
 		}
 		if nw < 1 {
@@ -2167,7 +2170,11 @@ func (c *Ctx) rulesR3whentime() {
 		}
 	}
 	n := 0
-	for _, b := range f.Blocks {
+	var tblocks []*ssa.BasicBlock
+	for _, hf := range c.hostedFns(f) {
+		tblocks = append(tblocks, hf.Blocks...)
+	}
+	for _, b := range tblocks {
 		for _, ins := range b.Instrs {
 			rg, ok := ins.(*ssa.Range)
 			if !ok {
@@ -2177,7 +2184,7 @@ func (c *Ctx) rulesR3whentime() {
 				continue
 			}
 			// only the clock-typed maps (name -> tick)
-			if rg.X != before && loadOfField(rg.X) != fClock {
+			if c.hostedArg(rg.X, f) != before && loadOfField(rg.X) != fClock {
 				continue
 			}
 			n++
